@@ -675,6 +675,21 @@ def process_template(tpath, out_lines, meta, origin_stack=None):
             process_template(inc, out_lines, meta)
             i += 1
             continue
+        if s.startswith("//@premise "):
+            # a stated premise about code that stays outside the verifier: `<file> :: <item path> contains "<text>"`.
+            # Nothing is emitted; if the text is no longer there the unit is undecided (never an alarm).
+            pm = re.match(r'//@premise\s+(.*?)\s+contains\s+"(.*)"\s*$', s)
+            if not pm:
+                raise LostAnchor(f"{rel}:{i+1}: bad premise directive")
+            pparts = [p.strip() for p in pm.group(1).split(" :: ")]
+            r = resolve(pparts[0], [parse_seg(p) for p in pparts[1:]])
+            want = rscan.norm(pm.group(2).encode().decode("unicode_escape"))
+            have = rscan.norm(r.src[r.item.start:r.item.end])
+            if want not in have:
+                raise LostAnchor(f"{rel}:{i+1}: premise no longer holds: {pm.group(1)} does not contain {pm.group(2)!r}")
+            meta.setdefault("premises", []).append({"where": pm.group(1), "contains": pm.group(2)})
+            i += 1
+            continue
         if s.startswith("//@extract "):
             spec = s[len("//@extract "):]
             parts = [p.strip() for p in spec.split(" :: ")]
